@@ -17,6 +17,7 @@ from . import conn
 
 PID = "C10"
 ROLES = ["HOST", "DEVICE", "OTHER"]
+PARITY = {"no": False, "ctor": True, "fn": True, "ctor+fn": False, "fn+fn": False, "ctor+fn+fn": True}
 LEAFKINDS = ["input", "output", "inout", "undirected", "roled", "plain"]
 
 
@@ -32,7 +33,8 @@ def leaf(n, kind, w):
 def path_cases(maxdepth=3):
     """single-path bundle definitions: B1 -> B2 -> B3, leaf in the deepest."""
     for depth in range(1, maxdepth + 1):
-        for flips in itertools.product(["no", "ctor", "fn"], repeat=depth):       # flip at the instance and at each sub level
+        styles = ["no", "ctor", "fn"] if depth > 1 else ["no", "ctor", "fn", "ctor+fn", "fn+fn", "ctor+fn+fn"]
+        for flips in itertools.product(styles, repeat=depth):       # flip at the instance and at each sub level
             for kind in LEAFKINDS:
                 for role in ["", "HOST", "DEVICE", "OTHER"]:
                     for port in (True, False):
@@ -44,10 +46,10 @@ def path_cases(maxdepth=3):
                             for k, bn in enumerate(names):
                                 last = k == depth - 1
                                 bundles[bn] = {"sigs": [leaf("x", kind, w)] if last else [], "roles": ROLES,
-                                               "subs": [] if last else [{"n": "sub", "of": names[k + 1], "flipped": flips[k + 1] != "no",
+                                               "subs": [] if last else [{"n": "sub", "of": names[k + 1], "flipped": PARITY[flips[k + 1]],
                                                                          "flipstyle": flips[k + 1], "role": role if (k + 1 == depth - 1) else ""}]}
                             inner_role = role if depth == 1 else ""
-                            bi = {"n": "bi", "of": "B1", "port": port, "flipped": flips[0] != "no", "flipstyle": flips[0], "role": inner_role}
+                            bi = {"n": "bi", "of": "B1", "port": port, "flipped": PARITY[flips[0]], "flipstyle": flips[0], "role": inner_role}
                             yield {"bundles": bundles, "bi": bi}
 
 
@@ -65,13 +67,15 @@ def tree_cases(rnd, n):
             subs = []
             if depth < 3:
                 for k in range(rnd.randint(0 if sigs else 1, 2)):
-                    subs.append({"n": f"b{k}", "of": mk(depth + 1), "flipped": rnd.random() < 0.5, "flipstyle": rnd.choice(["ctor", "fn"]),
+                    fs = rnd.choice(list(PARITY))
+                    subs.append({"n": f"b{k}", "of": mk(depth + 1), "flipped": PARITY[fs], "flipstyle": fs,
                                  "role": rnd.choice(["", "HOST", "DEVICE", "OTHER"])})
             bundles[bn] = {"sigs": sigs, "subs": subs, "roles": ROLES}
             return bn
         top = mk(1)
         port = rnd.random() < 0.8
-        bi = {"n": "bi", "of": top, "port": port, "flipped": port and rnd.random() < 0.5, "flipstyle": rnd.choice(["ctor", "fn"]),
+        fs = rnd.choice(list(PARITY)) if port else "no"
+        bi = {"n": "bi", "of": top, "port": port, "flipped": PARITY[fs], "flipstyle": fs,
               "role": rnd.choice(["", "HOST", "DEVICE", "OTHER"]) if port else ""}
         out.append({"bundles": bundles, "bi": bi})
     return out
@@ -111,14 +115,26 @@ def leaves_of(bundles, bn):
     return out
 
 
-def conn_design(case):
+def anon_reversed(bundles, bn, root, path=()):
+    """anonymous bundle naming every member of bundle `bn` (reached from instance `root` along `path`) in REVERSED declaration order"""
+    b = bundles[bn]
+    mem = {}
+    for sub in reversed(b["subs"]):
+        mem[sub["n"]] = anon_reversed(bundles, sub["of"], root, path + (sub["n"],))
+    for s in reversed(b["sigs"]):
+        mem[s["n"]] = Bref(root, *(path + (s["n"],)))
+    return Anon(**mem)
+
+
+def conn_design(case, reverse=False):
     """parent connects an internal bundle instance to a child's bundle port; probes on every leaf on both sides"""
     bundles = case["bundles"]
     bi = dict(case["bi"])
     bi["port"] = True
     lv = leaves_of(bundles, bi["of"])
     child = U.mod([], U.bprobes("bi", lv), [bi], probes=False)
-    top = U.mod([], [U.inst("c", "Child", [("bi", Bund("pb"))])] + U.bprobes("pb", lv), [U.bnd("pb", bi["of"])], probes=False)
+    term = anon_reversed(bundles, bi["of"], "pb") if reverse else Bund("pb")
+    top = U.mod([], [U.inst("c", "Child", [("bi", term)])] + U.bprobes("pb", lv), [U.bnd("pb", bi["of"])], probes=False)
     d = U.design({"Child": child, "Top": top}, bundles=bundles)
     return d
 
@@ -160,7 +176,8 @@ def run(tier, seed, replay_file=None):
             o.violations.append(Violation(clause=clause, case=case, features=[k], detail=evs[i]))
     o.distinct_nontrivial = len(cases)
     # connection agreement on the trees
-    cds = [("C10_tree", conn_design(c)) for c in cases[-(300 if tier == "quick" else 3000):]]
+    tail = cases[-(300 if tier == "quick" else 3000):]
+    cds = [("C10_tree", conn_design(c)) for c in tail] + [("C10_tree_anon_reversed", conn_design(c, True)) for c in tail]
     jobs, cevs, cverd, gen = conn.run_designs(cds, "c10conn", styles=("proc",), entries=())
     o.transitions += gen
     for tid, (ok, clause) in cverd.items():
